@@ -31,6 +31,8 @@ func (server *SugarDB) raftApplyDeleteKey(ctx context.Context, key string) error
 	protocol, _ := ctx.Value("Protocol").(int)
 	database, _ := ctx.Value("Database").(int)
 
+	expiredAt, _ := ctx.Value("ExpiredAt").(int64)
+
 	deleteKeyRequest := internal.ApplyRequest{
 		Type:         "delete-key",
 		ServerID:     serverId,
@@ -38,6 +40,7 @@ func (server *SugarDB) raftApplyDeleteKey(ctx context.Context, key string) error
 		Protocol:     protocol,
 		Database:     database,
 		Key:          key,
+		ExpiredAt:    expiredAt,
 	}
 
 	b, err := json.Marshal(deleteKeyRequest)
@@ -73,6 +76,8 @@ func (server *SugarDB) raftEnqueueDeleteKey(ctx context.Context, key string) err
 	protocol, _ := ctx.Value("Protocol").(int)
 	database, _ := ctx.Value("Database").(int)
 
+	expiredAt, _ := ctx.Value("ExpiredAt").(int64)
+
 	b, err := json.Marshal(internal.ApplyRequest{
 		Type:         "delete-key",
 		ServerID:     serverId,
@@ -80,6 +85,7 @@ func (server *SugarDB) raftEnqueueDeleteKey(ctx context.Context, key string) err
 		Protocol:     protocol,
 		Database:     database,
 		Key:          key,
+		ExpiredAt:    expiredAt,
 	})
 	if err != nil {
 		return fmt.Errorf("could not parse delete key request for key: %s", key)
